@@ -27,7 +27,7 @@ GKDI_PORT = 49667
 #   hs: 0/1 header-sign flag; tok: "tok" | "none" | "empty"
 # terminal elements: ["nak"], ["fault"], ["response"], ["request"], ["eof"], ["clear_response"]
 RESULT_CODE = {"A": 0, "U": 1, "P": 2, "N": 3}
-TERMINALS = (["nak"], ["fault"], ["response"], ["request"], ["eof"])
+TERMINALS = (["nak"], ["fault"], ["response"], ["request"], ["eof"], ["fault", 0x20], ["fault", 0x23 | 0x40])  # fault with PFC_DID_NOT_EXECUTE / PFC_MAYBE
 
 
 def _ack_bytes(el, position_kind: int, tok_index: int, auth_type: int) -> bytes:
@@ -80,7 +80,7 @@ class HandshakePeer(peers.PduPeer):
             conn.peer_send(rpce.build_bind_nak(reason=2))
         elif kind == "fault":
             self.sent.append(("fault", el, None))
-            conn.peer_send(rpce.build_fault(0x00000005))
+            conn.peer_send(rpce.build_fault(0x00000005, flags=(el[1] | 3) if len(el) > 1 else 3))
         elif kind == "request":
             self.sent.append(("request", el, None))
             conn.peer_send(rpce.build_request(b"\x00" * 8))
@@ -506,7 +506,7 @@ class C15(common.Check):
     def cases(self, tier, seed):
         out = []
         shapes = [(1, False), (2, False), (2, True), (3, False), (3, True), (4, False), (4, True)]
-        req_replies = [["response"], ["fault"], ["nak"], ["request"], ["eof"], ["ack", "pos", "AN", 1, "tok"]]
+        req_replies = [["response"], ["fault"], ["fault", 0x20], ["nak"], ["request"], ["eof"], ["ack", "pos", "AN", 1, "tok"]]
         for legs, empty_last in shapes:
             cfg = {"legs": legs, "empty_last": empty_last, "sig": 16}
             k = legs - 1 if empty_last else legs
